@@ -317,6 +317,14 @@ class OpsMixin(object):
             if attr in ("items", "keys", "values") and hasattr(base.obj, "iter_items") and hasattr(base.obj, "getitem"):
                 # Mapping mixin methods: derived from iteration and item access, as collections.abc.Mapping derives them
                 return PyObjV(_MappingView(base.obj, attr))
+            fb = getattr(base.obj, "fallback_class", None)
+            if fb is not None:
+                # a stand-in for an object of a class of the package: what the stand-in does not provide itself is the class's
+                # own method, run on the stand-in
+                try:
+                    return self.class_attr(fb, base, attr, node)
+                except AnalysisError:
+                    pass
             self.err(node, "model object %r has no attribute %s" % (base.obj, attr))
         if type(base).__name__ == "SetAccV" and not base.adds and attr in (
                 "issubset", "issuperset", "isdisjoint", "intersection", "union", "difference", "symmetric_difference", "copy"):
